@@ -351,6 +351,11 @@ Definition apply_opt (v : variant) (cur : list loader) (o : copt) : list loader 
 Definition configured (v : variant) (osargs : loader) (ops : list copt) : list loader :=
   fold_left (apply_opt v) ops [osargs].
 
+(* app.Settings(globals...) appends to a process-wide option list; App.Run(ops...) applies
+   `append(ops, globalOptions...)`: its own options first, the process-wide ones after them *)
+Definition configured_run (v : variant) (osargs : loader) (ops globals : list copt) : list loader :=
+  configured v osargs (ops ++ globals).
+
 (* --- the loader sequence: SortOrderedComponents, through Model/Sorter.v ------------------------- *)
 
 Fixpoint parts_from (n : nat) (ls : list loader) : list participant :=
